@@ -573,7 +573,7 @@ class StmtMixin:
             inited.add(fname)
         return lines
 
-    def lower_slice(self, fname, sname, from_var, until_kind, until_name):
+    def lower_slice(self, fname, sname, from_var, until_kind, until_name, from_kind='from_decl'):
         """A contiguous statement range of a (large) function, lowered as a function of its own: <function>__slice_<name>.
         The range starts at the declaration of `from_var` and ends before the first later statement of the same block that
         refers to a variable / member / function named `until_name` (until_ref), or with the declaration of `until_name`
@@ -587,6 +587,15 @@ class StmtMixin:
         cid = cids[0]
         fdecl = self.defnodes[cid]
         found = []
+
+        def local_records(n):
+            # record types declared inside the function body are not in the name index: register them by their plain name
+            if n.get('kind') == 'CXXRecordDecl' and n.get('completeDefinition') and n.get('name') and n.get('id') not in self.ix.qname:
+                self.ix.qname[n['id']] = n['name']
+                self.ix.defs.setdefault(n['name'], []).append(n)
+            for c in n.get('inner', []):
+                local_records(c)
+        local_records(body(fdecl))
 
         def declares(stmt, var):
             return stmt.get('kind') == 'DeclStmt' and any(d.get('kind') == 'VarDecl' and d.get('name') == var for d in stmt.get('inner', []))
@@ -602,11 +611,15 @@ class StmtMixin:
             if n.get('kind') == 'CompoundStmt':
                 kids = n.get('inner', [])
                 for i, c in enumerate(kids):
-                    if declares(c, from_var):
+                    if (from_kind == 'from_decl' and declares(c, from_var)) or \
+                            (from_kind == 'from_ref' and refers(c, from_var) and not any(refers(p, from_var) for p in kids[:i])
+                             and not any(k.get('kind') == 'CompoundStmt' and refers(k, from_var) for k in [c])):
                         found.append((kids, i))
             for c in n.get('inner', []):
                 walk(c)
         walk(body(fdecl))
+        if from_kind == 'from_ref' and found:
+            found = found[:1]      # the outermost statement that refers to the name (pre-order walk: enclosing blocks first)
         if len(found) != 1:
             raise LoweringError(f'@slice {fname} {sname}: {len(found)} declarations of {from_var} (renamed or removed?)')
         kids, start = found[0]
@@ -640,14 +653,16 @@ class StmtMixin:
         for st in stmts:
             scan(st)
         ret_name = from_var if until_kind == 'until_ref' else until_name
+        if from_kind == 'from_ref' and until_kind == 'until_ref':
+            ret_name = None      # a range that starts at a statement (e.g. a loop): no value is returned, effects go through the pointer parameters
         ret_node = None
         for st in stmts:
             for d in st.get('inner', []) if st.get('kind') == 'DeclStmt' else []:
                 if d.get('kind') == 'VarDecl' and d.get('name') == ret_name:
                     ret_node = d
-        if ret_node is None:
+        if ret_node is None and ret_name is not None:
             raise LoweringError(f'@slice {fname} {sname}: the returned variable {ret_name} is not declared inside the range')
-        rett = self.tyof(ret_node).strip_ref()
+        rett = self.tyof(ret_node).strip_ref() if ret_node is not None else parse_type('void')
         cname = f'{mangle(self.ix.qname.get(cid) or fname)}__slice_{sname}'
         spec = self.spec.fn.get(cname)
         if spec:
@@ -671,8 +686,9 @@ class StmtMixin:
         lines = []
         for st in stmts:
             lines += self.st(st, '  ')
-        rl = info['locals'].get(ret_node['id'])
-        lines.append(f'  return {rl[0] if rl else ret_name};')
+        if ret_node is not None:
+            rl = info['locals'].get(ret_node['id'])
+            lines.append(f'  return {rl[0] if rl else ret_name};')
         self.cur, self.pre, self.cond_depth = saved
         self.fninfo[cname] = info
         self.protos.append(sig + ';')
